@@ -28,7 +28,21 @@ RULE = ("values built AT the layout thresholds: all-simple dicts and lists whose
         "iteration; a second iteration (and the first collection again after it); two no-colour results, a coloured "
         "one, the other mode's printer and the rendering of [v, {'k': v}] (v itself twice) consumed interleaved line "
         "by line with the line objects kept; a fresh printer; a result object made first and consumed last; str() "
-        "after the user extended get_ch_text() / sums; the input value unchanged afterwards.  "
+        "after the user extended get_ch_text() / sums; format(), f-string, %s, print(), + '', [:], fixed_len(len()), "
+        "len(); the input value unchanged afterwards.  "
+        "Configuration of the call (case['cfg'], kind 'config'): EVERY combination that asks for no-colour output of "
+        "printer object (PrettyPrinter(fmt_json=True/False) shared, PrettyPrinter(fmt_json=1/0), PrettyPrinter(), the "
+        "module-level ak.ppobj.pp) x palette= (omitted, the default class, a subclass with other colours, a subclass "
+        "with syntax ids of its own, a ready OBJECT of each of these, an object built from a configuration with other "
+        "colours / from a no_color configuration / with no_color=True, the synced object) x colors_conf= (omitted, other "
+        "colours, a no_color configuration) x no_color= (True; False / omitted where the configuration is no-colour by "
+        "itself) x global colours configuration (as found, other colours, a no_color one; then also str()/repr() of "
+        "PPWrap and pp(v) with default arguments), on five values with keys, keywords, numbers, strings (one-line, "
+        "nested, wrapped list, random) in both modes (quick: 2100 cases; the printer kinds made per case are crossed "
+        "with the default global configuration only; thorough: the full product on 15 values), and a configuration "
+        "drawn at random on every 4th case of the other kinds; the whole battery of consumption orders runs under the "
+        "configuration, followed by the plain default call and, for a changed global configuration, by a result "
+        "consumed after the former configuration is back.  "
         "Non-trivial = distinct value whose top level is a non-empty container.")
 TRUSTED_BASE = [
     "json.loads / ast.literal_eval interpret the atoms the reader of the theorems leaves opaque: str(int)/str(float) "
@@ -38,8 +52,14 @@ TRUSTED_BASE = [
     "gen/C11_Consts.v: _CONSTANTS_LITERALS, the table index chosen by fmt_json, the one-line limits of the dict and "
     "list branches, the wrap limit (with their comparison operators) and the ranks of _mk_type_sort_value are read "
     "from ak/ppobj.py by harness/props/c11.py:gen_consts (ast, fail-closed)",
-    "ak.color CHText / palette with no_color=True: a chunk contributes exactly its text (covered by the "
-    "correspondence check only, through str() of the lines)",
+    "ak.color CHText / a plain palette (no_color=True or built from a no_color configuration): a chunk contributes "
+    "exactly its text (covered by the correspondence check only, through str() of the lines, under every "
+    "configuration of the call); C11/Palette.v models only WHICH arguments give a plain palette "
+    "(PaletteUser._mk_palette, the no_color / configuration rule of the palette constructor) and is hand-written, "
+    "not extracted: its fidelity is checked by the correspondence on every combination of the arguments",
+    "harness/props/c11.py:cfg_plain_without_no_color (the generator's reading of the doc-strings: which configurations "
+    "are no-colour without no_color=True) -- cross-checked against C11.Palette.mk_palette_plain on every config case "
+    "(result (2) = they disagree)",
     "harness/props/c11.py:impl_run drops a view of the lines that is == (Python list-of-str equality) the first view "
     "before the views are handed to the model; expand() gives the model the tree a value with shared objects stands for",
 ]
@@ -51,8 +71,10 @@ ASSUMPTIONS = [
 ]
 MODELLED = ("ak/ppobj.py PrettyPrinter._gen_ch_lines, _gen_ch_chunks_for_obj, _all_values_are_simple, "
             "_value_is_simple, _simple_val_to_ch_chunk, _dict_key_to_sc_chunk, _mk_type_sort_value, "
-            "_PrettyPrinterTextGen.make_ch_text (as '\\n'.join of the line texts); colours, tuples, float keys and "
-            "non-JSON objects (the str(obj) fallback) are not modelled")
+            "_PrettyPrinterTextGen.make_ch_text (as '\\n'.join of the line texts); ak/color.py "
+            "PaletteUser._mk_palette + the no_color rule of _PaletteMeta.__call__ / Palette._prepare_local_colors / "
+            "ColorsConfig(no_color=True) as ONE bit (is the palette plain?) in C11/Palette.v; the colours themselves, "
+            "tuples, float keys and non-JSON objects (the str(obj) fallback) are not modelled")
 
 
 class ExtractError(Exception):
@@ -658,17 +680,31 @@ def gen_cases(rng, tier):
     pools = {m: all_cfgs(m, True) for m in ("json", "py")}
     for c in cases:
         if rng.random() < 0.25:
-            c["cfg"] = dict(rng.choice(pools[c["mode"]]))
+            c["cfgs"] = [dict(rng.choice(pools[c["mode"]]))]
     # the configuration of the call: EVERY combination of printer object x palette= x colors_conf= x no_color= x
     # global configuration that asks for no-colour output (see DEFAULT_CFG), on a handful of values with keys,
-    # keywords, numbers and strings (one-line, nested, wrapped); the twice-rendering is left to the oracle
+    # keywords, numbers and strings (one-line, nested, wrapped).  One case = one value, one printer object, one
+    # global configuration and a list of (palette=, colors_conf=, no_color=) combinations, rendered one after
+    # the other by one impl_run (palettes are cached per class / per configuration: the calls share that state)
     vals = config_values(rng)
-    for i in range(30 if big else 0):
+    for i in range(10 if big else 0):
         vals.append(rvalue(rng, rng.randrange(1, 5), True))
+    conf = []
     for v in vals:
         for m in ("json", "py"):
+            groups = {}
             for cfg in all_cfgs(m, big):
-                cases.append({"kind": "config", "mode": m, "v": enc(v), "cfg": cfg, "wm": 0})
+                groups.setdefault((cfg.get("k"), cfg.get("g")), []).append(cfg)
+            for key in groups:
+                cs = groups[key]
+                if rng.random() < 0.5:
+                    cs = cs[::-1]
+                for i in range(0, len(cs), 16):   # at most 16 configurations per case (per-case time limit)
+                    conf.append({"kind": "config", "mode": m, "v": enc(v), "cfgs": cs[i:i + 16]})
+    # spread evenly over the list (the implementation workers take contiguous slices of it)
+    step = max(1, len(cases) // (len(conf) + 1))
+    for i, c in enumerate(conf):
+        cases.insert(min(len(cases), (i + 1) * step + i), c)
     return cases
 
 
@@ -685,13 +721,13 @@ def all_cfgs(mode, full):
                             continue
                         c = {"k": k, "pal": pal, "cc": cc, "nc": nc, "g": g}
                         if cfg_valid(c, mode):
-                            out.append({x: y for x, y in c.items() if y != DEFAULT_CFG[x]} or {"k": "shared"})
+                            out.append(cfg_short(c))
     return out
 
 
 def config_values(rng):
     long_list = []
-    for i in range(45):
+    for i in range(14):   # ~35 items, too long for one line: several items per line
         long_list += [i * 37 % 1000, rng.choice([True, False, None]), "item%03d" % i, round(rng.uniform(-9, 9), 2)][: 1 + i % 4]
     rnd = rvalue(rng, 3, True)
     if not isinstance(rnd, (list, dict)) or not rnd:
@@ -769,10 +805,18 @@ PAL_OBJ_BUILT = {"obj-default": (0, None), "obj-sub": (0, None), "obj-sub2": (0,
                  "obj-nc": (1, None), "obj-ccn": (0, "nc"), "obj-synced": (0, None)}
 
 
-def cfg_of(case):
-    c = dict(DEFAULT_CFG)
-    c.update(case.get("cfg") or {})
-    return c
+def cfg_full(c):
+    return dict(DEFAULT_CFG, **(c or {}))
+
+
+def cfgs_of(case):
+    """the configurations under which the case is rendered (case["cfgs"]: a list, one after the other in one
+    impl_run; absent = the default call only)"""
+    return [cfg_full(c) for c in (case.get("cfgs") or [{}])]
+
+
+def cfg_short(c):
+    return {x: y for x, y in c.items() if y != DEFAULT_CFG[x]}
 
 
 def cfg_valid(c, mode):
@@ -859,18 +903,59 @@ def _mk_pal(name, E):
 
 
 def impl_run(case):
+    v = dec(case["v"])
+    before = enc(v)
+    cfgs = cfgs_of(case)
+    views = []   # (name, [line text])   every one of them must be the lines of the no-colour rendering of v
+    texts = []   # (name, text)          every one of them must be the whole no-colour text of v
+    wviews = []  # the same for twice(v)
+    done = 0
+    try:
+        for cfg in cfgs:
+            tag = f"[{cfg_text(cfg)}] " if len(cfgs) > 1 else ""
+            vs, ts, ws = [], [], []
+            try:
+                _battery(case, v, cfg, bool(case.get("cfgs")), vs, ts, ws)
+            finally:
+                views += [(tag + n, x) for n, x in vs]
+                texts += [(tag + n, x) for n, x in ts]
+                wviews += [(tag + n, x) for n, x in ws]
+            done += 1
+    except Exception as e:
+        return {"exc": SX.exc_name(e), "stage": [done, len(views) + len(texts) + len(wviews)]}
+    for _n, t in texts:
+        if not isinstance(t, str):
+            return {"exc": "NotAString"}
+    for _n, ls in views + wviews:
+        if not all(isinstance(x, str) for x in ls):
+            return {"exc": "NotAString"}
+    lines = views[0][1]
+    text = texts[0][1]
+    obs = {"text": text, "lines": lines, "wlines": wviews[0][1]}
+    # views / texts equal to the first one are not repeated (what differs is kept, with its name)
+    other = {n: ls for n, ls in views[1:] if ls != lines}
+    if other:
+        obs["views"] = other
+    other = {n: t for n, t in texts[1:] if t != text}
+    if other:
+        obs["texts"] = other
+    other = {n: ls for n, ls in wviews[1:] if ls != wviews[0][1]}
+    if other:
+        obs["wviews"] = other
+    if enc(v) != before:
+        obs["input_changed"] = 1
+    return obs
+
+
+def _battery(case, v, cfg, explicit, views, texts, wviews):
+    """render v under ONE configuration of the call and consume the result in every way; appends to views / texts /
+    wviews; the implementation's exceptions propagate"""
     import contextlib
     import io
     from ak.ppobj import PrettyPrinter
     from ak import color as akcolor
     from ak import ppobj as akppobj
-    v = dec(case["v"])
-    before = enc(v)
-    cfg = cfg_of(case)
     js = case["mode"] == "json"
-    views = []   # (name, [line text])   every one of them must be the lines of the no-colour rendering of v
-    texts = []   # (name, text)          every one of them must be the whole no-colour text of v
-    wviews = []  # the same for twice(v)
     saved_global = late = None
     try:
         E = _env()
@@ -935,7 +1020,7 @@ def impl_run(case):
         texts.append(("radd-empty-str", str("" + r)))
         texts.append(("slice-all", str(r[:])))
         texts.append(("fixed_len(len())", str(r.fixed_len(len(r)))))
-        texts.append(("len", texts[0][1] if len(r) == len(texts[0][1]) else f"<len() is {len(r)}, str() has {len(texts[0][1])} characters>"))
+        texts.append(("len", texts[0][1] if len(r) == len(texts[0][1]) else f"<len() is {len(r)}, str() has {len(texts[0][1])} characters>: {texts[0][1]}"))
         views.append(("lines-format", [format(ln, "") for ln in r]))
         buf = io.StringIO()
         for ln in r:
@@ -974,7 +1059,7 @@ def impl_run(case):
         texts.append(("fresh-printer", str(fresh(v, **kw))))
         # (5) the plain call  pp(v, no_color=True)  of the shared printer (the reference configuration) -- after
         #     the configured calls: the no-colour palette of a class is cached on the class
-        if case.get("cfg"):
+        if explicit:
             views.append(("default-call-afterwards", [str(x) for x in _PRINTERS[case["mode"]](v, no_color=True)]))
             texts.append(("default-call-afterwards", str(_PRINTERS[case["mode"]](v, no_color=True))))
         # (6) under a no_color GLOBAL configuration the console wrapper prints the no-colour Python text
@@ -989,39 +1074,12 @@ def impl_run(case):
         # (7) the result made at the very beginning, consumed after the printer rendered all of the above
         views.append(("early-result-consumed-last", [str(x) for x in list(early)]))
         texts.append(("early-result-consumed-last", str(early)))
-    except Exception as e:
-        return {"exc": SX.exc_name(e), "stage": len(views) + len(texts) + len(wviews)}
     finally:
         if saved_global is not None:
             akcolor.set_global_colors_config(saved_global)
     if late is not None:
-        try:
-            views.append(("consumed-after-the-global-configuration-was-restored", [str(x) for x in late]))
-            texts.append(("consumed-after-the-global-configuration-was-restored", str(late)))
-        except Exception as e:
-            return {"exc": SX.exc_name(e), "stage": "late"}
-    for _n, t in texts:
-        if not isinstance(t, str):
-            return {"exc": "NotAString"}
-    for _n, ls in views + wviews:
-        if not all(isinstance(x, str) for x in ls):
-            return {"exc": "NotAString"}
-    lines = views[0][1]
-    text = texts[0][1]
-    obs = {"text": text, "lines": lines, "wlines": wviews[0][1]}
-    # views / texts equal to the first one are not repeated (what differs is kept, with its name)
-    other = {n: ls for n, ls in views[1:] if ls != lines}
-    if other:
-        obs["views"] = other
-    other = {n: t for n, t in texts[1:] if t != text}
-    if other:
-        obs["texts"] = other
-    other = {n: ls for n, ls in wviews[1:] if ls != wviews[0][1]}
-    if other:
-        obs["wviews"] = other
-    if enc(v) != before:
-        obs["input_changed"] = 1
-    return obs
+        views.append(("consumed-after-the-global-configuration-was-restored", [str(x) for x in late]))
+        texts.append(("consumed-after-the-global-configuration-was-restored", str(late)))
 
 
 # ------------------------------------------------------------------ model side
@@ -1084,7 +1142,7 @@ def wsplit_ok(case):
 def _wothers(case, obs):
     o = dict(obs.get("wviews") or {})
     if not wsplit_ok(case):
-        o.pop("str-split", None)
+        o = {n: x for n, x in o.items() if not n.endswith("str-split")}
     return o
 
 
@@ -1095,8 +1153,9 @@ def coq_case(case, obs):
         views = _coq_views(obs["lines"], obs.get("views") or {})
         wviews = _coq_views(obs["wlines"], _wothers(case, obs)) if case.get("wm", 1) else "[]"
     m = "Json" if case["mode"] == "json" else "Py"
-    if case.get("cfg"):
-        return f"PPC {m} ({coq_value(expand(case['v']))}) {coq_cfg(cfg_of(case))} {views} {wviews}"
+    if case.get("cfgs"):
+        cs = "[" + "; ".join(coq_cfg(c) for c in cfgs_of(case)) + "]"
+        return f"PPC {m} ({coq_value(expand(case['v']))}) {cs} {views} {wviews}"
     return f"PP {m} ({coq_value(expand(case['v']))}) {views} {wviews}"
 
 
@@ -1209,8 +1268,9 @@ def _first_line_diff(a, b):
 
 def oracle(case, obs):
     out = _oracle(case, obs)
-    if case.get("cfg"):
-        how = f"  [call: {cfg_text(cfg_of(case))}]"
+    if case.get("cfgs"):
+        cs = cfgs_of(case)
+        how = f"  [call: {cfg_text(cs[0])}]" if len(cs) == 1 else f"  [{len(cs)} configurations of the call, the first: {cfg_text(cs[0])}]"
         out = [(sig, msg + how) for sig, msg in out]
     return out
 
@@ -1234,7 +1294,7 @@ def _oracle(case, obs):
     # the same rendering obtained in another way / order must be the same lines and the same text
     bad = dict(obs.get("views") or {})
     wbad = {"[v, {'k': v}]: " + n: ls for n, ls in (obs.get("wviews") or {}).items()
-            if n != "str-split" or wsplit_ok(case)}
+            if not n.endswith("str-split") or wsplit_ok(case)}
     if bad or wbad:
         n = sorted(bad)[0] if bad else sorted(wbad)[0]
         d = _first_line_diff(obs["lines"], bad[n]) if bad else _first_line_diff(obs["wlines"], wbad[n])
@@ -1310,21 +1370,23 @@ def shrink_candidates(case):
             yield ["s", a[: len(a) // 2]]
             yield ["s", a[:-1]]
 
-    # a simpler configuration of the call first (one argument back to its default at a time)
-    if case.get("cfg"):
-        c = cfg_of(case)
+    # fewer configurations of the call first (halves, then each one alone), then a simpler one (one argument
+    # back to its default at a time)
+    cs = case.get("cfgs")
+    if cs and len(cs) > 1:
+        if len(cs) > 3:
+            yield dict(case, cfgs=cs[: len(cs) // 2])
+            yield dict(case, cfgs=cs[len(cs) // 2:])
+        for c in cs[:36]:
+            yield dict(case, cfgs=[c])
+    elif cs:
+        c = cfg_full(cs[0])
         for f in ("g", "k", "cc", "pal", "nc"):
             if c[f] != DEFAULT_CFG[f]:
                 c2 = dict(c)
                 c2[f] = DEFAULT_CFG[f]
                 if cfg_valid(c2, case["mode"]):
-                    c2 = {x: y for x, y in c2.items() if y != DEFAULT_CFG[x]}
-                    smaller = dict(case)
-                    if c2:
-                        smaller["cfg"] = c2
-                    else:
-                        smaller.pop("cfg")
-                    yield smaller
+                    yield dict(case, cfgs=[cfg_short(c2)])
     t, a = case["v"]
     if t == "l":
         for x in a:
@@ -1353,10 +1415,13 @@ LEVEL_TEXT = ("Full (about the model, unbounded values / offsets / both modes): 
               "(permutation + StronglySorted for _mk_type_sort_value's order) with key_order (total, transitive, "
               "antisymmetric) and key_order_spec, no_drop_dup, long_containers_wrapped and wrapped_lines_bounded "
               "(the two layout limits are respected), consts_ok (JSON literals true/false/null, Python literals, "
-              "distinct sort ranks) re-proved against the constants re-read from the source on every run. "
+              "distinct sort ranks) re-proved against the constants re-read from the source on every run; "
+              "no_color_wins (no_color=True gives the plain palette whatever palette= -- omitted, class, ready coloured "
+              "object -- colors_conf= and the global configuration are), rejected_iff, no_color_conf_plain (about the "
+              "hand-written one-bit model of _mk_palette, C11/Palette.v). "
               "Partial / tested only: atoms are opaque in the reader, so 'str(number) and the literals are read back "
               "as the same number / constant' and the injectivity of tree_of are trusted to json.loads / "
-              "ast.literal_eval and checked by the oracle on every generated case (~1140 quick, ~22700 thorough); "
+              "ast.literal_eval and checked by the oracle on every generated case (~3240 quick, ~32500 thorough); "
               "float dict keys and non-JSON objects are outside the model (oracle only).  "
               "Tested only (the model is a pure function of mode and value, so it has nothing to say about object "
               "identity or consumption order): that the implementation's lines are the same however the result is "
@@ -1364,7 +1429,11 @@ LEVEL_TEXT = ("Full (about the model, unbounded values / offsets / both modes): 
               "after coloured / other renderings, late) and that a value containing one object several times prints as "
               "its expanded tree -- every such view is compared with gen_lines in C11.Run (quick: also the rendering "
               "of [v, {'k': v}] on every case; thorough: on every 4th) and by the oracle (view-differs, text-differs, "
-              "input-mutated, shared-unparsable-*, shared-value-differs-*).")
+              "input-mutated, shared-unparsable-*, shared-value-differs-*).  Likewise tested only: that a plain "
+              "palette makes str() the plain text, i.e. that the no-colour text is the model's text under every "
+              "configuration of the call that asks for it (C11.Run PPC: the model decides from the configuration that "
+              "the palette is plain, then all views must be gen_lines; oracle colour-in-no-colour-output, "
+              "unparsable-*, text-differs).")
 LEVEL_NOTE = ("Trusted: Coq kernel + vm_compute; the hand model's fidelity (checked by correspondence on every case, not "
               "proved); json.loads/ast.literal_eval agreeing with the reader C11.Reader on punctuation/strings and "
               "interpreting atoms; the ast extractor and harness. Print Assumptions: closed under the global context "
